@@ -11,81 +11,7 @@ use model::prep::{derive_rust, DeriveOut};
 use model::run::{drive, report_violation, Args, DriveResult, Run};
 use model::fnv;
 
-pub const ENUM_ATTRS_OK: &[&str] = &[
-    "#[logos(skip \" \")]", "#[logos(skip(\"\\t+\", priority = 3))]", "#[logos(extras = MyExtras)]", "#[logos(error = MyError)]",
-    "#[logos(error(MyError, my_cb))]", "#[logos(error(MyError, callback = |lex| MyError::at(lex.span())))]", "#[logos(utf8 = false)]",
-    "#[logos(utf8 = true)]", "#[logos(crate = my::logos)]", "#[logos(subpattern d = \"[0-9]\")]", "#[logos(subpattern dd = \"(?&d)(?&d)\")]",
-    "#[derive(Debug, Clone)]", "#[repr(u8)]", "/// docs", "#[allow(dead_code)]", "#[logos(skip(\"#[^\\n]*\", allow_greedy = true))]",
-];
-pub const ENUM_ATTRS_BAD: &[&str] = &[
-    "#[logos]", "#[logos = \"x\"]", "#[logos()]", "#[logos(3)]", "#[logos(\"x\")]", "#[logos(|x| x)]", "#[logos(skip)]", "#[logos(skip = \"a\")]",
-    "#[logos(skip 3)]", "#[logos(skip())]", "#[logos(skip(3))]", "#[logos(skip(\"a\", \"b\", \"c\"))]", "#[logos(skip(\"a\", priority = 1, priority = 2))]",
-    "#[logos(skip(\"a\", callback = f, callback = g))]", "#[logos(skip(\"a\", f, callback = g))]", "#[logos(error = A, error = B)]",
-    "#[logos(error(A, callback = f, callback = g))]", "#[logos(error(A, f, callback = g))]", "#[logos(error())]", "#[logos(error(A, f, g))]",
-    "#[logos(error(A, unknown = 3))]", "#[logos(error(A, callback))]", "#[logos(error(3 +))]", "#[logos(error)]", "#[logos(extras = A, extras = B)]",
-    "#[logos(extras)]", "#[logos(extras(A))]", "#[logos(utf8 = maybe)]", "#[logos(utf8 = true, utf8 = false)]", "#[logos(utf8)]", "#[logos(utf8(true))]",
-    "#[logos(crate)]", "#[logos(crate(x))]", "#[logos(subpattern = \"a\")]", "#[logos(subpattern x)]", "#[logos(subpattern x = 3)]",
-    "#[logos(subpattern x = \"a\", subpattern x = \"b\")]", "#[logos(subpattern x = \"(\")]", "#[logos(subpattern x = \"(?&x)\")]",
-    "#[logos(subpattern e = \"a*\")]", "#[logos(type T = u8)]", "#[logos(type T)]", "#[logos(type = u8)]", "#[logos(lifetime = 'a, lifetime = 'b)]",
-    "#[logos(lifetime = 'zz)]", "#[logos(lifetime)]", "#[logos(export_dir = 3)]", "#[logos(export_dir)]", "#[logos(source = str)]", "#[logos(nope = 1)]",
-    "#[logos(nope)]", "#[logos(,)]", "#[logos(skip \"a\" \"b\")]", "#[logos(skip(\"a\", ignore(nope)))]", "#[logos(error = )]", "#[logos(extras = )]",
-    "#[logos(skip(\"a\", priority = ))]", "#[logos(skip(\"a\", callback = ))]", "#[logos(skip(\"a\", callback = |a, b| a))]", "#[logos(skip(\"a\", callback = ||))]",
-    "#[logos(skip(\"a\", |x|))]", "#[logos(skip(\"a\") junk)]", "#[logos(skip b\"\\xff\")]", "#[logos(skip \"\")]",
-];
-pub const VAR_ATTRS_OK: &[&str] = &[
-    "#[token(\"a\")]", "#[token(\"bc\", priority = 3)]", "#[regex(\"[a-z]+\")]", "#[regex(\"[0-9]+\", |lex| lex.slice().len())]", "#[regex(\"x+\", my_cb)]",
-    "#[regex(\"y\", callback = my_cb)]", "#[token(\"k\", ignore(case))]", "#[regex(\"q.*\", allow_greedy = true)]", "#[token(b\"\\x00\")]",
-    "#[regex(\"(?&d)+z\")]", "#[regex(\"é|ß\")]", "/// doc", "#[cfg(all())]", "#[regex(\"w$\")]",
-];
-pub const VAR_ATTRS_BAD: &[&str] = &[
-    "#[token]", "#[token()]", "#[token(3)]", "#[token = \"a\"]", "#[token(\"a\", \"b\")]", "#[token(\"a\", \"b\", \"c\")]", "#[token(\"a\", priority = 1, priority = 2)]",
-    "#[token(\"a\", callback = f, callback = g)]", "#[regex(\"a\", f, callback = g)]", "#[regex(\"(\")]", "#[regex(\"a{2,1}\")]", "#[regex(\"\\\\p{Nope}\")]",
-    "#[regex(\"a\", ignore(nope))]", "#[regex(\"a\", ignore())]", "#[regex(\"a\", ignore(case,))]", "#[regex(\"a\", ignore(case case))]", "#[regex(\"a\", ignore = case)]",
-    "#[regex(\"a\", ignore(ascii_case))]", "#[regex(\"a\", priority = -1)]", "#[regex(\"a\", priority = 99999999999999999999999)]", "#[regex(\"a\", priority = \"x\")]",
-    "#[regex(\"a\", priority(3))]", "#[regex(\"a\", priority)]", "#[regex(\"a\", unknown = 3)]", "#[regex(\"a\", allow_greedy = maybe)]", "#[regex(\"a\", allow_greedy)]",
-    "#[regex(\"a\", allow_greedy = true, allow_greedy = false)]", "#[regex(\"a\",,)]", "#[regex(,\"a\")]", "#[regex(\"a\" \"b\")]", "#[regex(\"a\", |a, b| a)]",
-    "#[regex(\"a\", ||)]", "#[regex(\"a\", |x|)]", "#[regex(\"a\", callback = )]", "#[regex(\"a\", callback)]", "#[regex(\"a\", callback(f))]", "#[error]",
-    "#[regex(b\"\\xff\")]", "#[token(b\"\\xff\")]", "#[regex(\"a\", ignore(case) junk)]", "#[regex(\"a\", ignore(case), ignore(case))]", "#[regex('a')]",
-    "#[regex(r#\"\"#)]", "#[regex(\"\\\\xff\")]", "#[regex(\"(?-u:\\\\xff)\")]", "#[regex(\"a\", 3)]", "#[token(\"a\", callback = 3 +)]", "#[regex(\"a\\\\1\")]",
-    "#[regex(\"(?=a)b\")]", "#[regex(\"a++\")]", "#[regex(\"(?P<n>a)\")]", "#[regex(\"\\\\b{start}a\")]",
-];
-/// (attribute, independent reason) - definitions containing one of these on a unit variant must be rejected
-pub const MUST_REJECT_ATTRS: &[(&str, &str)] = &[
-    ("#[regex(\"a*\")]", "matches the empty string"),
-    ("#[regex(\"(a|)\")]", "matches the empty string"),
-    ("#[regex(\"\")]", "matches the empty string"),
-    ("#[token(\"\")]", "matches the empty string"),
-    ("#[regex(\"b?c?\")]", "matches the empty string"),
-    ("#[regex(\"(?:ab)*\")]", "matches the empty string"),
-    ("#[regex(\"x{0,3}\")]", "matches the empty string"),
-    ("#[regex(\"$\")]", "matches the empty string"),
-    ("#[regex(\"a*$\")]", "matches the empty string at end of input"),
-    ("#[regex(\"^a\")]", "look-behind at the token start"),
-    ("#[regex(\"\\\\Aa\")]", "look-behind at the token start"),
-    ("#[regex(\"(?m:^)a\")]", "look-behind at the token start"),
-    ("#[regex(\"(?-u:\\\\b)a\")]", "look-behind at the token start"),
-    ("#[regex(\"(?-u:\\\\B)a\")]", "look-behind at the token start"),
-    ("#[regex(\"a\\\\b\")]", "Unicode word boundary (unsupported regex feature)"),
-    ("#[regex(\"a\\\\Bb\")]", "Unicode word boundary (unsupported regex feature)"),
-    ("#[regex(\"a.*\")]", "unbounded greedy dot without allow_greedy"),
-    ("#[regex(\"a.+\")]", "unbounded greedy dot without allow_greedy"),
-    ("#[regex(\"a[^\\\\n]*\")]", "unbounded greedy dot without allow_greedy"),
-    ("#[regex(\"a(?s:.)*b\")]", "unbounded greedy dot without allow_greedy"),
-    ("#[regex(\"a.{2,}\")]", "unbounded greedy dot without allow_greedy"),
-    ("#[regex(\"(?:a.*)+\")]", "unbounded greedy dot (inside a repetition) without allow_greedy"),
-    ("#[regex(\"x(?:.+y){2}\")]", "unbounded greedy dot (inside a repetition) without allow_greedy"),
-    ("#[regex(\"(?:b[^\\n]*c)?d\")]", "unbounded greedy dot (inside a repetition) without allow_greedy"),
-    ("#[regex(\"a(?:b|.*c)\")]", "unbounded greedy dot (inside an alternation) without allow_greedy"),
-    ("#[regex(\"a(.*)\")]", "unbounded greedy dot (inside a capture group) without allow_greedy"),
-    ("#[regex(\"(?&nope)\")]", "undefined subpattern"),
-    ("#[regex(\"a(?&alsonope)b\")]", "undefined subpattern"),
-];
-pub const MUST_REJECT_SHAPES: &[(&str, &str)] = &[
-    ("{ x: u8 }", "named fields"),
-    ("()", "empty tuple variant"),
-    ("(u8, u8)", "multi-field variant"),
-    ("(u8, u8, u8)", "multi-field variant"),
-];
+pub use model::soup::{ENUM_ATTRS_BAD, ENUM_ATTRS_OK, MUST_REJECT_ATTRS, MUST_REJECT_SHAPES, VAR_ATTRS_BAD, VAR_ATTRS_OK};
 
 #[derive(Clone, Debug)]
 pub struct Soup {
